@@ -123,7 +123,7 @@ AddWhy(st, ns, p, kind) ==
     ELSE IF Legality(st, ns, p[Len(p)], kind) = "silent" THEN "~" \o ns \o "_silent_name"
     ELSE ""
 
-Soft(w) == w \in {"~iso_silent_name", "~jol_silent_name", "~udf_silent_name"}
+Soft(w) == w \in {"~iso_silent_name", "~jol_silent_name", "~udf_silent_name", "~last_catalog_name"}
 \* first definite reason, else first silent one, else ""
 FirstWhy(ws) ==
     LET hard == SelectSeq(ws, LAMBDA w : w # "" /\ ~Soft(w))
@@ -215,6 +215,10 @@ RmHardLinkF(st, ns, p) ==
     ELSE IF ~HasNs(st, ns) THEN Refuse(ns \o "_no_such_namespace")
     ELSE IF p = Root \/ p \notin DOMAIN Tree(st, ns) THEN Refuse(ns \o "_missing")
     ELSE IF Tree(st, ns)[p].k = "dir" THEN Refuse(ns \o "_wrong_kind")
+    \* the last name of the boot catalog: an implementation may refuse to leave the catalog nameless
+    \* (rm_eltorito is the call that removes it) or may keep a hidden catalog
+    ELSE IF st.elt.on /\ Tree(st, ns)[p].ino = st.elt.catino /\ Cardinality(NameRefs(st, st.elt.catino)) = 1
+         THEN Either(GC(WithTree(st, ns, Del(Tree(st, ns), {p}))), "~last_catalog_name")
     ELSE Ok(GC(WithTree(st, ns, Del(Tree(st, ns), {p}))))
 
 RmFileF(st, ns, p) ==
